@@ -52,7 +52,7 @@ def _terms(m, member):
     from osyris import Array
     if isinstance(member, Array):
         return m.vals(member._array)
-    return [t for c in member._xyz.values() for t in m.vals(c._array)]
+    return [t for c in C.vcomps(member).values() for t in m.vals(c._array)]
 
 
 def body(m, cfg):
